@@ -35,7 +35,9 @@ PROP = dict(
           "cabinet-x: every history of fixed depth over 16 operations {alloc(obj), alloc(), free #0..#4, update #0..#2, clear, "
           "foreach{nothing}, foreach{free current}, foreach{free another}, free(null token), update(null token)} (#k = k-th issued token mod the number issued, live or "
           "stale), all stale tokens probed after every step. "
-          "pool: 40-200 alloc/free operations on 1-2 ObjectPool<T>, T in {1-byte probe, 24-byte probe, 224-byte probe}, three "
+          "pool: 40-200 alloc/free operations on 1-2 ObjectPool<T>, T in {1-byte probe, 24-byte probe, 224-byte probe, 56-byte chain "
+          "node whose constructor allocates 0-3 descendants from the same pool and whose destructor frees them (alloc/free re-entered "
+          "while the outer call runs; a node's storage counts as in use from the first statement of its constructor)}, three "
           "constructor shapes (default, two values, move-only argument), retention limit in {0,1,2,3,64,unbounded}, LIFO/FIFO/random "
           "free order, pool destruction with parked blocks; non-trivial when a parked block was reused and a block was released to the "
           "heap or a pool died with parked blocks. "
@@ -51,7 +53,8 @@ PROP = dict(
           "distinct = distinct operation-script hashes among the non-trivial cases"),
     assumptions=[
         "cabinet visitors only remove entries (the header allows exactly that during foreach); they never alloc or clear",
-        "every pooled object is given back to the pool it came from before that pool is destroyed; constructors do not throw",
+        "every pooled object is given back to the pool it came from before that pool is destroyed; constructors do not throw; a "
+        "constructor/destructor of the pooled type may call alloc()/free() of the same pool (chain and tree nodes do)",
         "ids are size_t counters: wrap-around at 2^64 allocations is out of reach and not exercised",
         "the pool's retention behaviour (take a parked block if there is one, malloc otherwise; park on free while fewer than the "
         "limit are parked) and the meaning of the ObjectPoolStat fields are taken from the comments in object_pool.hpp",
@@ -84,7 +87,10 @@ PROP = dict(
         # pool: placement new / explicit destructor around the block cache
         "pool_alloc_from_free_list", "pool_alloc_from_heap", "pool_free_parked", "pool_free_released",
         "pool_destroy_with_parked", "pool_keep_0", "pool_keep_1to3", "pool_keep_64", "pool_keep_unbounded",
-        "pool_type_tiny", "pool_type_small", "pool_type_big",
+        "pool_type_tiny", "pool_type_small", "pool_type_big", "pool_type_nested_chain",
+        # alloc()/free() re-entered from a constructor/destructor of the pooled type, with blocks parked at that moment
+        "pool_nested_alloc_in_ctor", "pool_nested_alloc_in_ctor_with_parked_blocks",
+        "pool_nested_chain_built_entirely_from_parked_blocks", "pool_nested_free_in_dtor",
         # fd: reference-counted detail record
         "fd_close_on_last_release", "fd_close_by_assignment", "fd_explicit_close", "fd_explicit_close_while_shared",
         "fd_close_again_noop", "fd_assign_same_record", "fd_self_assign", "fd_copy_construct", "fd_move_construct",
